@@ -121,6 +121,20 @@ struct Mohd {
     num_lod: u16,
 }
 
+/// Read `size` bytes of chunk data. The size comes straight from the file, so the data
+/// is read through a length-limited adapter instead of being allocated up front.
+fn read_chunk_bytes<R: Read>(
+    reader: &mut R,
+    size: u32,
+) -> Result<Vec<u8>, Box<dyn std::error::Error>> {
+    let mut data = Vec::new();
+    reader.take(size as u64).read_to_end(&mut data)?;
+    if data.len() != size as usize {
+        return Err(std::io::Error::from(std::io::ErrorKind::UnexpectedEof).into());
+    }
+    Ok(data)
+}
+
 /// Parse a WMO root file using discovered chunks
 pub fn parse_root_file<R: Read + Seek>(
     reader: &mut R,
@@ -195,8 +209,7 @@ pub fn parse_root_file<R: Read + Seek>(
             }
             "MOTX" => {
                 // Read texture filenames
-                let mut data = vec![0u8; chunk_info.size as usize];
-                reader.read_exact(&mut data)?;
+                let data = read_chunk_bytes(reader, chunk_info.size)?;
                 let motx = Motx::parse(&data)?;
                 root.textures = motx.textures;
                 root.texture_offset_index_map = motx.texture_offset_index_map;
@@ -210,8 +223,7 @@ pub fn parse_root_file<R: Read + Seek>(
             }
             "MOGN" => {
                 // Read group names
-                let mut data = vec![0u8; chunk_info.size as usize];
-                reader.read_exact(&mut data)?;
+                let data = read_chunk_bytes(reader, chunk_info.size)?;
                 let mogn = Mogn::parse(&data)?;
                 root.group_names = mogn.names;
             }
@@ -224,8 +236,7 @@ pub fn parse_root_file<R: Read + Seek>(
             }
             "MOSB" => {
                 // Read skybox name
-                let mut data = vec![0u8; chunk_info.size as usize];
-                reader.read_exact(&mut data)?;
+                let data = read_chunk_bytes(reader, chunk_info.size)?;
                 let mosb = Mosb::parse(&data)?;
                 root.skybox = mosb.skybox;
             }
@@ -280,8 +291,7 @@ pub fn parse_root_file<R: Read + Seek>(
             }
             "MODN" => {
                 // Read doodad names
-                let mut data = vec![0u8; chunk_info.size as usize];
-                reader.read_exact(&mut data)?;
+                let data = read_chunk_bytes(reader, chunk_info.size)?;
                 let modn = Modn::parse(&data)?;
                 root.doodad_names = modn.names;
             }
@@ -337,8 +347,7 @@ pub fn parse_root_file<R: Read + Seek>(
             "MOM3" => {
                 // Read new materials (WarWithin+)
                 // Structure is variable, read as opaque data for now
-                let mut data = vec![0u8; chunk_info.size as usize];
-                reader.read_exact(&mut data)?;
+                let data = read_chunk_bytes(reader, chunk_info.size)?;
                 root.new_materials.push(Mom3Entry { data });
             }
             "MOMO" => {
